@@ -8,6 +8,63 @@ PROFILE = dict(named_cols=0.4, partial_args=0.3, inclusion=0.25, assign=0.6, lis
                ifthenelse=0.4, builtins=0.3, func_calls=0.5, share_names=0.5, table_funcs=0.5, dup_calls=0.5, set_agg=0.0)
 
 
+def distinct_callee(rep, tier):
+  """A `distinct` (deduplicating) single-rule predicate read by aggregating, distinct and plain callers: the rows of
+  the caller, computed directly from the facts, must come out under every plan annotation of the callee."""
+  from vlib import logica_run
+  r = common.rng('c08-distinct-callee')
+  n = 10 if tier == 'quick' else 150
+  runs = bad = 0
+  for _ in range(n):
+    edges = [(r.randint(0, 3), r.randint(0, 3)) for _ in range(r.randint(3, 7))]
+    filt = r.choice([None, None, 1, 2])
+    two_cols = r.random() < 0.3
+    # the callee: distinct projection of Edge
+    if two_cols:
+      callee = 'Source(x, y) distinct :- Edge(x, y)%s;' % ('' if filt is None else ', y >= %d' % filt)
+      src = sorted(set((x, y) for x, y in edges if filt is None or y >= filt))
+    else:
+      callee = 'Source(x) distinct :- Edge(x, y)%s;' % ('' if filt is None else ', y >= %d' % filt)
+      src = sorted(set((x,) for x, y in edges if filt is None or y >= filt))
+    call = 'Source(x, y)' if two_cols else 'Source(x)'
+    kind = r.choice(['count', 'count', 'sum', 'plain', 'distinct', 'total', 'join'])
+    if kind == 'count':
+      caller = 'Q(x, n? += 1) distinct :- %s;' % call
+      want = sorted((k, sum(1 for t in src if t[0] == k)) for k in set(t[0] for t in src))
+    elif kind == 'sum':
+      caller = 'Q(x, n? += x + 1) distinct :- %s;' % call
+      want = sorted((k, sum(k + 1 for t in src if t[0] == k)) for k in set(t[0] for t in src))
+    elif kind == 'total':
+      caller = 'Q() += 1 :- %s;' % call
+      want = [(len(src),)] if src else []
+    elif kind == 'plain':
+      caller = 'Q(x) :- %s;' % call
+      want = sorted((t[0],) for t in src)
+    elif kind == 'distinct':
+      caller = 'Q(x) distinct :- %s;' % call
+      want = sorted(set((t[0],) for t in src))
+    else:
+      caller = 'Q(x, n? += 1) distinct :- %s, Edge(x, z);' % call
+      want = sorted((k, sum(1 for t in src if t[0] == k) * sum(1 for e in edges if e[0] == k)) for k in set(t[0] for t in src))
+    base = '@Engine("sqlite");\n' + ''.join('Edge(%d, %d);\n' % e for e in edges) + callee + '\n' + caller + '\n'
+    plans = [('default', ''), ('NoInject', '@NoInject(Source);\n'), ('With', '@With(Source);\n'), ('NoWith', '@NoWith(Source);\n'),
+             ('Ground', '@AttachDatabase("logica_home", ":memory:");\n@Ground(Source);\n')]
+    for pname, ann in plans:
+      t = base + ann
+      st, a, b = logica_run.run_pred(t, 'Q')
+      runs += 1
+      rows = sorted(tuple(x) for x in b) if st == 'ok' else a
+      if (st != 'ok' or rows != want) and bad < 3:
+        bad += 1
+        rep.violation('distinct-callee:%s:%s' % (pname, st if st != 'ok' else 'rows'), {
+            'program_text': t, 'predicate': 'Q', 'expected_rows': want, 'observed': [st, rows if st == 'ok' else str(rows)[:300]],
+            'plan': pname, 'law': 'the rows of Q do not depend on how Source is planned (injected, WITH, inlined, grounded); '
+                                  'Source is distinct, so each of its rows counts once',
+            'how': 'vlib.logica_run.run_pred(program_text, "Q")'})
+  rep.coverage['distinct_callee_runs'] = runs
+  rep.coverage['evaluations'] = rep.coverage.get('evaluations', 0) + runs
+
+
 def run(tier, replay=None):
   rep = common.Report(PID, tier, 'other')
   rep.assumptions = [
@@ -30,6 +87,8 @@ def run(tier, replay=None):
       ('random_2', lambda prog, r: V.annotate(prog, r)),
   ]
   found = K.run_core(rep, PID, tier, PROFILE, variants, 50, 500, 'c08', replay=replay, ok=ok, info=info, metamorphic=True)
+  if not replay:
+    distinct_callee(rep, tier)
   # --- tie of the injection model (Core/Inject.v) to LogicaProgram.RunInjections / InjectStructure
   if ok and not replay:
     import random
